@@ -78,6 +78,9 @@ def shards(tier):
                 for nb in (1,) + t["bins"]:
                     out.append({"law": law, "prm": list(prm), "L_max": lmax, "bins": nb,
                                 "perpoint": nb in t["perpoint_bins"]})
+                    if nb in (3, 10) and lmax == t["L_max"][0]:
+                        for via in ("set-Kp", "set-K"):
+                            out.append({"law": law, "prm": list(prm), "L_max": lmax, "bins": nb, "perpoint": False, "via": via})
     out.sort(key=lambda s: s["bins"])
     return out
 
@@ -93,10 +96,23 @@ def _law(cfg):
 
 
 def _binned(cfg, maximum):
+    """via None: fresh law object.  via 'set-Kp' / 'set-K': the law object was constructed with another K_p / K', was
+    binned once with the SAME maximum and bin count (anything memoised per (maximum, bins) is filled), then the parameter
+    was assigned through the public setter and the law is binned again - the tables must be those of the current law."""
     from pylife.materiallaws.notch_approximation_law import Binned
     with warnings.catch_warnings():
         warnings.simplefilter("ignore")
-        return Binned(_law(cfg), maximum, cfg["bins"])
+        via = cfg.get("via")
+        if not via:
+            return Binned(_law(cfg), maximum, cfg["bins"])
+        _, E, K, n, Kp = cfg["prm"]
+        law = _law(dict(cfg, prm=[cfg["prm"][0], E, K, n, Kp + 1.5] if via == "set-Kp" else [cfg["prm"][0], E, 1.7 * K, n, Kp]))
+        Binned(law, maximum, cfg["bins"])
+        if via == "set-Kp":
+            law.K_p = Kp
+        else:
+            law.K = K
+        return Binned(law, maximum, cfg["bins"])
 
 
 def _maxima_series(cfg, mult):
@@ -429,7 +445,7 @@ def run_shard(cfg):
 
     def report(viol, probe):
         for key, detail in viol:
-            acc.violation(key, {"cfg": cfg, "probe": probe}, detail)
+            acc.violation(key + ("/after-setters" if cfg.get("via") else ""), {"cfg": cfg, "probe": probe}, detail)
 
     report(probe_table(cfg, acc), {"p": "table"})
     acc.cases += 1
@@ -481,6 +497,11 @@ def run_shard(cfg):
 
 
 def replay(case):
+    sfx = "/after-setters" if case["cfg"].get("via") else ""
+    return [(k + sfx, d) for k, d in _replay(case)]
+
+
+def _replay(case):
     cfg, probe = case["cfg"], case["probe"]
     acc = Acc()
     if probe["p"] == "table":
